@@ -7,7 +7,8 @@
    itself is covered by the fixed-seed differential run implementation <-> specification model. *)
 From RU Require Import Base.Prelude Base.Utf8 Model.AsciiSet Gen.Tables Model.PercentEncoding
   Model.HostT Model.UrlRecord Model.Parser Model.KnownC01 Spec.Whatwg
-  Proofs.C01_Tables Proofs.C01_Override.
+  Proofs.C01_Tables Proofs.C01_Override
+  Model.Setters Proofs.C08_Input Proofs.C01_EqRun Proofs.C01_EqEnc Proofs.C01_EqApi Proofs.C01_EqOpaque Proofs.C01_EqClasses.
 
 (* (a) the percent-encode sets applied by the parser are the Standard's, for every byte *)
 Theorem C01_sets : forall b, b < 256 ->
@@ -70,4 +71,74 @@ Example C01_known_classes :
   /\ known_c01 None [110;58;47;47;120;46;121;58;56;92] = 3                     (* n://x.y:8\ *)
   /\ known_c01 None [98;108;111;98;58;47;47;58;64;47] = 4                      (* blob://:@/ *)
   /\ known_c01 None [104;116;116;112;58;47;47;104;47;97;63;113;35;102] = 0.    (* http://h/a?q#f *)
+Proof. vm_compute. repeat split. Qed.
+
+(* ====================================================================================== *)
+(* Proved parts of the equivalence (lemma plan (c), (h) of DESIGN.md section 8)            *)
+(* ====================================================================================== *)
+
+(* (c) scheme start / scheme states: on every input the model's parse_scheme and the Standard's scan
+   of the cleaned text give the same lower-cased scheme and the same remaining text, or both fall to
+   "no scheme".  `ntnl` removes tab / LF / CR (the model's remaining input still carries them; its
+   iterator skips them). *)
+Theorem C01_eq_scheme_state : forall l,
+  match parse_scheme CUrlParser l, spec_scheme (ntnl l) with
+  | Some (s, r), Some (s', r') => s = s' /\ ntnl r = r'
+  | None, None => True
+  | _, _ => False
+  end.
+Proof. exact scheme_state_eq. Qed.
+Print Assumptions C01_eq_scheme_state.
+
+(* the cleaned text the Standard's state machine runs on is the model's trimmed input minus the code
+   points its iterator skips *)
+Theorem C01_eq_cleaning : forall raw, spec_clean raw = ntnl (input_new_trim_c0 raw).
+Proof. exact spec_clean_is_ntnl_trim. Qed.
+Print Assumptions C01_eq_cleaning.
+
+(* the model's encoder (per UTF-8 byte, table-driven set) is the Standard's (per code point,
+   predicate), for each of the six sets *)
+Theorem C01_eq_encoders : forall cs,
+  encode T_CONTROLS (utf8_encode cs) = utf8_percent_encode in_c0_control_set cs
+  /\ encode T_FRAGMENT (utf8_encode cs) = utf8_percent_encode in_fragment_set cs
+  /\ encode T_QUERY (utf8_encode cs) = utf8_percent_encode in_query_set cs
+  /\ encode T_SPECIAL_QUERY (utf8_encode cs) = utf8_percent_encode in_special_query_set cs
+  /\ encode T_PATH (utf8_encode cs) = utf8_percent_encode in_path_set cs
+  /\ encode T_USERINFO (utf8_encode cs) = utf8_percent_encode in_userinfo_set cs.
+Proof. exact encoders_agree. Qed.
+Print Assumptions C01_eq_encoders.
+
+(* (h) first full class: no base, non-special scheme, text after "scheme:" not starting with '/'
+   (opaque path + optional query + optional fragment).  Every scalar-value input of the class - tab /
+   LF / CR anywhere, leading / trailing C0-or-space - : the Standard succeeds, and the model succeeds
+   with the same ten API strings unless it reports ParseError::Overflow (serialization beyond u32,
+   which the Standard does not know).  No host function is involved. *)
+Theorem C01_eq_opaque : forall dbg hp hpo hd ovr shp shs input,
+  usv_list input -> in_class_opaque input = true ->
+  agree_ok dbg shs (parse_url dbg hp hpo hd ovr None input) (spec_basic_url_parse shp input None).
+Proof. exact class_opaque. Qed.
+Check C01_eq_opaque : forall dbg hp hpo hd ovr shp shs input,
+  usv_list input -> in_class_opaque input = true ->
+  exists su, spec_basic_url_parse shp input None = BDone su
+    /\ (parse_url dbg hp hpo hd ovr None input = PErr Overflow
+        \/ exists u, parse_url dbg hp hpo hd ovr None input = POk u
+                     /\ api_of_model dbg u = Some (spec_api_list shs su)).
+Print Assumptions C01_eq_opaque.
+
+(* toy host functions for the non-vacuity examples (the classes below never call them) *)
+Definition toy_hp (s : list N) : result host := Ok (HDomain s).
+Definition toy_hd (h : host) : list N := match h with HDomain d => d | _ => [] end.
+Definition toy_shp (o : bool) (s : list N) : option spec_host := Some (if o then SOpaque s else SDomain s).
+Definition toy_shs (h : spec_host) : list N := match h with SDomain d => d | SOpaque d => d | _ => [] end.
+
+(* " Mail<TAB>to:x <e-acute>?q'#f<LF>` " is in the class; both sides give "mailto:x %C3%A9?q'#f%60" *)
+Example C01_eq_opaque_nonvacuous :
+  let input := [32; 77; 97; 105; 108; 9; 116; 111; 58; 120; 32; 233; 63; 113; 39; 35; 102; 10; 96; 32] in
+  in_class_opaque input = true
+  /\ match parse_url true toy_hp toy_hp toy_hd None None input, spec_basic_url_parse toy_shp input None with
+     | POk u, BDone su =>
+         api_of_model true u = Some (spec_api_list toy_shs su)
+         /\ q_href u = [109; 97; 105; 108; 116; 111; 58; 120; 32; 37; 67; 51; 37; 65; 57; 63; 113; 39; 35; 102; 37; 54; 48]
+     | _, _ => False
+     end.
 Proof. vm_compute. repeat split. Qed.
